@@ -44,3 +44,4 @@ Print Assumptions C02_json_no_panic.
 Print Assumptions C02_json_total.
 Print Assumptions C02_json_top_no_panic.
 Print Assumptions C02_refuted_json_wrong_shape_pinned.
+Print Assumptions C02_json_pinned_inputs_now_errors.
